@@ -725,7 +725,8 @@ Proof.
     apply (sound_in_prod p f bit xs ys); assumption.
 Qed.
 
-(** Elementwise list operations (vector_add / vector_sub): a rule consulting ALL elements is sound ... *)
+(** Elementwise list operations (vector_add / vector_sub, whose rule in the source is
+    [rule_in_prod] = all elements of both lists -- checked by gen/FlagOblig.v): sound ... *)
 Fixpoint zip_with {A B C} (g : A -> B -> C) (xs : list A) (ys : list B) : list C :=
   match xs, ys with a :: xs', b :: ys' => g a b :: zip_with g xs' ys' | _, _ => [] end.
 
@@ -744,8 +745,10 @@ Proof.
   constructor; [apply Hg; auto|]. apply IH; auto.
 Qed.
 
-(** ... and a rule consulting only the FIRST element (the rule found in vector_add, schur_prod, ...)
-    is not: mixed list [2, 3*2^-16] on SecFxp(32,16) (DESIGN F-C03). *)
+(** ... and an (abstract) rule consulting only the FIRST element is not: mixed list [2, 3*2^-16] on
+    SecFxp(32,16).  This was the rule of vector_add, schur_prod, ... before repair 9bcd50d (DESIGN
+    F-C03); it is still the rule of runtime._distribute (mpc.input).  The statement is about the
+    rule shape, not about a particular call site: the sites are in the regenerated table. *)
 Theorem first_rule_refuted : exists f xs,
   Forall (sound f) xs /\
   eval (envl (map flg xs) (map flg xs)) (And (First "x") (First "y")) = true /\
